@@ -398,3 +398,79 @@ B('d4_b_table_argument_raw_filter_row', ['C09'], 'R09.d', (CE, _REG_DEF, _REG_DE
 B('d4_b_pair_arguments_crossed_name', ['C09'], 'R09.d',
   (CE, _REG_DEF, "def _register_page(page_name, page_source):\n    CONTEXTUAL_ENV.register_source(page_name, page_source)\n"),
   (CE, _REG_CALL, "\n_register_page('500.html', HTML_500_TMPL)\n_register_page('500.html', HTML_404_TMPL)\n"))
+
+# ------------------------------------------------------------------ fifth pass: clauses that were not decided yet
+# R09.b: what the negotiation answers when nothing is acceptable; the charset of the header is the body's; the format table is
+# never modified at run time; an adapt() / render_error() of a subclass is held to the same rules.  R09.c: a to_escaped_dict() of a
+# subclass.  R09.a: the handler's error-type slots carry the status of their situation; constructors of error types hand what they
+# are given (code / message / detail / error_type ...) on to the next constructor
+_RENDER_BM = "        best_match = request.accept_mimetypes.best_match(MIME_SUPPORT_MAP)\n        _error.adapt(best_match)\n        return _error\n"
+_ISE_TO_DICT_DEF = "    def to_dict(self):\n        ret = super(InternalServerError, self).to_dict()\n"
+_CEH_SLOT = "    not_found_type = ContextualNotFound\n"
+_NF_SUPER = "        super(NotFound, self).__init__(*args, **kwargs)\n"
+_ISE_SUPER = "        super(InternalServerError, self).__init__(detail, **kwargs)\n"
+_ISE_POP = "        self.exc_info = kwargs.pop('exc_info', None)\n"
+_MNA_SUPER = "        super(MethodNotAllowed, self).__init__(*args, **kwargs)\n"
+_CNF_SUPER = "        super(ContextualNotFound, self).__init__(*a, **kw)\n"
+
+T('d5_t_negotiation_default_plain_text', ['C09'], (E, _RENDER_BM, _RENDER_BM.replace("best_match(MIME_SUPPORT_MAP)", "best_match(MIME_SUPPORT_MAP, default=DEFAULT_MIME)")))
+T('d5_t_negotiation_default_none', ['C09'], (A, "best_match(MIME_SUPPORT_MAP)", "best_match(MIME_SUPPORT_MAP, None)"))
+T('d5_t_header_charset_keyword', ['C09'], (E, _ADAPT_HEADER, "        self.headers['Content-Type'] = get_content_type(mimetype=mimetype, charset=self.charset)\n"))
+T('d5_t_adapt_override_defers', ['C09'],
+  (E, _ISE_TO_DICT_DEF, "    def adapt(self, mimetype=None):\n        super(InternalServerError, self).adapt(mimetype)\n\n" + _ISE_TO_DICT_DEF))
+T('d5_t_subclass_init_python3_super', ['C09'], (E, _NF_SUPER, "        super().__init__(*args, **kwargs)\n"),
+  (E, _ISE_SUPER, "        super().__init__(detail=detail, **kwargs)\n"))
+T('d5_t_subclass_init_base_named', ['C09'], (E, _MNA_SUPER, "        BadRequest.__init__(self, *args, **kwargs)\n"))
+T('d5_t_handler_slots_of_subclass_handler', ['C09'],
+  (E, "class _REPLDebuggedApplication(DebuggedApplication):", "class QuietErrorHandler(ErrorHandler):\n    not_found_type = Gone\n    not_found_type = NotFound\n    server_error_type = ContextualInternalServerError\n\n\n"
+      "class _REPLDebuggedApplication(DebuggedApplication):"))
+T('d5_t_render_error_override_negotiates', ['C09'],
+  (E, _CEH_SLOT, _CEH_SLOT + "\n    def render_error(self, request, _error):\n        wanted = request.accept_mimetypes.best_match(list(MIME_SUPPORT_MAP))\n"
+                            "        _error.adapt(wanted)\n        return _error\n"))
+
+B('d5_b_negotiation_default_html', ['C09'], 'R09.b', (E, _RENDER_BM, _RENDER_BM.replace("best_match(MIME_SUPPORT_MAP)", "best_match(MIME_SUPPORT_MAP, default='text/html')")))
+B('d5_b_negotiation_default_html_positional', ['C09'], 'R09.b', (A, "best_match(MIME_SUPPORT_MAP)", "best_match(MIME_SUPPORT_MAP, 'text/html')"))
+B('d5_b_negotiation_default_unknown_type', ['C09'], 'R09.b', (A, "best_match(MIME_SUPPORT_MAP)", "best_match(MIME_SUPPORT_MAP, default='text/*')"))
+B('d5_b_header_charset_literal', ['C09'], 'R09.b', (E, _ADAPT_HEADER, "        self.headers['Content-Type'] = get_content_type(mimetype, 'latin-1')\n"))
+B('d5_b_header_charset_of_class', ['C09'], 'R09.b', (E, _ADAPT_HEADER, "        self.headers['Content-Type'] = get_content_type(mimetype, charset=BaseResponse.charset)\n"))
+B('d5_b_table_caches_unknown_types', ['C09'], 'R09.b',
+  (E, _ADAPT_LOOKUP, "        try:\n            fmt_name = MIME_SUPPORT_MAP[mimetype]\n        except KeyError:\n"
+                     "            MIME_SUPPORT_MAP[mimetype] = 'text'\n            fmt_name, mimetype = 'text', 'text/plain'\n"))
+B('d5_b_table_setdefault_lookup', ['C09'], 'R09.b',
+  (E, _ADAPT_LOOKUP, "        fmt_name = MIME_SUPPORT_MAP.setdefault(mimetype, 'text')\n        if fmt_name == 'text':\n            mimetype = 'text/plain'\n"))
+B('d5_b_table_pruned_by_application', ['C09'], 'R09.b',
+  (A, "    best_match = request.accept_mimetypes.best_match(MIME_SUPPORT_MAP)\n", "    MIME_SUPPORT_MAP.pop('application/xml', None)\n    best_match = request.accept_mimetypes.best_match(MIME_SUPPORT_MAP)\n"))
+B('d5_b_adapt_override_body_only', ['C09'], 'R09.b',
+  (E, _ISE_TO_DICT_DEF, "    def adapt(self, mimetype=None):\n        self.data = self.to_html()\n\n" + _ISE_TO_DICT_DEF))
+B('d5_b_adapt_override_defers_with_fixed_type', ['C09'], 'R09.b',
+  (E, _ISE_TO_DICT_DEF, "    def adapt(self, mimetype=None):\n        super(InternalServerError, self).adapt('text/html')\n\n" + _ISE_TO_DICT_DEF))
+B('d5_b_adapt_override_own_pairing_wrong', ['C09'], 'R09.b',
+  (E, _ISE_TO_DICT_DEF, "    def adapt(self, mimetype=None):\n        try:\n            fmt_name = MIME_SUPPORT_MAP[mimetype]\n        except KeyError:\n"
+                        "            fmt_name = 'text'\n        self.data = getattr(self, 'to_' + fmt_name)()\n"
+                        "        self.headers['Content-Type'] = get_content_type(mimetype, self.charset)\n\n" + _ISE_TO_DICT_DEF))
+B('d5_b_render_error_override_fixed_format', ['C09'], 'R09.b',
+  (E, _CEH_SLOT, _CEH_SLOT + "\n    def render_error(self, request, _error):\n        _error.adapt('text/html')\n        return _error\n"))
+B('d5_b_render_error_override_skips_adapt', ['C09'], 'R09.b',
+  (E, _CEH_SLOT, _CEH_SLOT + "\n    def render_error(self, request, _error):\n        if request.accept_mimetypes:\n"
+                            "            _error.adapt(request.accept_mimetypes.best_match(MIME_SUPPORT_MAP))\n        return _error\n"))
+B('d5_b_escaped_dict_override_raw', ['C09'], 'R09.c',
+  (E, _ISE_TO_DICT_DEF, "    def to_escaped_dict(self):\n        return dict((k, str(v)) for k, v in self.to_dict().items())\n\n" + _ISE_TO_DICT_DEF))
+B('d5_b_escaped_dict_override_skips_exc_info', ['C09'], 'R09.c',
+  (E, _ISE_TO_DICT_DEF, "    def to_escaped_dict(self):\n        ret = super(InternalServerError, self).to_escaped_dict()\n        ret['exc_info'] = repr(self.exc_info)\n"
+                        "        return ret\n\n" + _ISE_TO_DICT_DEF))
+B('d5_b_debug_handler_404_slot_is_500', ['C09'], 'R09.a', (E, _CEH_SLOT, "    not_found_type = ContextualInternalServerError\n"))
+B('d5_b_handler_404_slot_is_bad_request', ['C09'], 'R09.a', (E, "    # 404\n    not_found_type = NotFound\n", "    # 404\n    not_found_type = BadRequest\n"))
+B('d5_b_handler_500_slot_is_bad_gateway', ['C09'], 'R09.a', (E, "    server_error_type = InternalServerError\n", "    server_error_type = BadGateway\n"))
+B('d5_b_handler_slot_not_an_error_type', ['C09'], 'R09.a', (E, "    method_not_allowed_type = MethodNotAllowed\n", "    method_not_allowed_type = ErrorHandler\n"))
+B('d5_b_not_found_init_drops_kwargs', ['C09'], 'R09.a', (E, _NF_SUPER, "        super(NotFound, self).__init__(*args)\n"))
+B('d5_b_server_error_init_drops_kwargs', ['C09'], 'R09.a', (E, _ISE_SUPER, "        super(InternalServerError, self).__init__(detail)\n"))
+B('d5_b_server_error_init_takes_the_code', ['C09'], 'R09.a', (E, _ISE_POP, _ISE_POP + "        kwargs.pop('code', None)\n"))
+B('d5_b_server_error_init_drops_detail', ['C09'], 'R09.a', (E, _ISE_SUPER, "        super(InternalServerError, self).__init__(**kwargs)\n"))
+B('d5_b_method_not_allowed_init_fixed_message', ['C09'], 'R09.a', (E, _MNA_SUPER, "        super(MethodNotAllowed, self).__init__(*args, message=self.message, **kwargs)\n"))
+B('d5_b_method_not_allowed_init_drops_args', ['C09'], 'R09.a', (E, _MNA_SUPER, "        super(MethodNotAllowed, self).__init__(**kwargs)\n"))
+B('d5_b_debug_not_found_init_conditional_super', ['C09'], 'R09.a',
+  (E, _CNF_SUPER, "        if self.request is not None:\n            super(ContextualNotFound, self).__init__(*a, **kw)\n"))
+B('d5_b_debug_not_found_init_overwrites_code', ['C09'], 'R09.a', (E, _CNF_SUPER, "        kw['code'] = 404\n" + _CNF_SUPER))
+T('d5_t_escaped_dict_override_extends', ['C09', 'C08'],
+  (E, _ISE_TO_DICT_DEF, "    def to_escaped_dict(self):\n        ret = super(InternalServerError, self).to_escaped_dict()\n"
+                        "        ret['exc_summary'] = html_escape(repr(self.exc_info), True)\n        return ret\n\n" + _ISE_TO_DICT_DEF))
